@@ -103,9 +103,11 @@ def resolve_fault(f, ref):
     raise ValueError('unknown fault kind %r' % kind)
 
 
-def prepare(hist):
+def prepare(hist, all_refs=True):
     """(refs, faults) for a history; raises InvalidHistory for histories outside
-    the assumptions (A1)."""
+    the assumptions (A1). With all_refs=False references are computed only
+    where a fault needs them for its placement (profiles without the
+    differential C08 oracle)."""
     ops = hist['ops']
     callspecs = derive(hist['world'], ops, builtin_syntax_snippets())
     refs = []
@@ -116,6 +118,10 @@ def prepare(hist):
             faults.append(None)
             continue
         f = op.get('fault') if op['op'] == 'call' else None
+        if not all_refs and not (f and f['kind'] in ('F3', 'F5')):
+            refs.append(None)
+            faults.append(resolve_fault(f, {}) if f else None)
+            continue
         want_entries = bool(f and f['kind'] == 'F5')
         r = {'fresh': get_ref(cs['fresh'], want_entries)}
         if 'none' in cs:
@@ -140,7 +146,7 @@ def strip_refs(refs):
 
 def simulate(hist, props, opts=None):
     "Runs one history; returns the run child's result dict (+ 'faults', 'n_refs')"
-    refs, faults = prepare(hist)
+    refs, faults = prepare(hist, all_refs=('C08' in props))
     res = fork_call(run_history, (hist, strip_refs(refs), faults, list(props), opts), timeout=RUN_TIMEOUT)
     res['faults'] = faults
     return res
